@@ -416,3 +416,14 @@ where
         f(context.mutation_context())
     }
 }
+
+#[cfg(gc_arena_verif)]
+impl<R> Arena<R>
+where
+    R: for<'a> Rootable<'a>,
+{
+    /// Read-only snapshot of the collector (verification hook).
+    pub fn verif_snapshot(&self) -> crate::verif::Snapshot {
+        self.context.verif_snapshot()
+    }
+}
